@@ -1,0 +1,51 @@
+//go:build verif
+
+// Machine-checked contracts (comment-only; compiled only under the build tag "verif").
+package trafficrouting
+
+// Typestate facts (ghost booleans; DESIGN.md 3.7). Each is assigned only where its `sets` clause says so:
+//   gatewayFinalised : the network provider's Finalise ran in this reconcile and returned no error
+//   routesWithdrawn  : RestoreGateway reported completion (not retry, no error)
+//   stableUnpinned   : RestoreStableService reported completion
+//   trCleanupDone    : FinalisingTrafficRouting reported (true, nil)
+//@ fact gatewayFinalised
+//@ fact routesWithdrawn
+//@ fact stableUnpinned
+//@ fact trCleanupDone
+
+//@ track (*Manager).RestoreStableService as restoreStable
+//@ track (*Manager).RestoreGateway as restoreGateway
+//@ track (*Manager).RemoveCanaryService as removeCanarySvc
+//@ track github.com/openkruise/rollouts/pkg/trafficrouting/network.(NetworkProvider).Finalise as providerFinalise
+//@ track github.com/openkruise/rollouts/pkg/trafficrouting/network.(NetworkProvider).EnsureRoutes as ensureRoutes
+
+// the action closure of RestoreGateway: runs the provider's Finalise
+//@ func (*Manager).RestoreGateway$1
+//@ props C04 C10
+//@ requires trController != nil && c != nil
+//@ sets @gatewayFinalised := result1 == nil
+//@ ensures ran_provider: #providerFinalise == 1 && (result1 == nil) == (#providerFinalise.ret1 == nil) && result0 == #providerFinalise.ret0
+
+//@ func (*Manager).RestoreGateway
+//@ props C04 C10 C18
+//@ requires m != nil && c != nil
+//@ sets @routesWithdrawn := !result0 && result1 == nil
+//@ ensures withdrawn_means_finalised: !result0 && result1 == nil && old(len(c.ObjectRef)) > 0 ==> @gatewayFinalised
+
+//@ func (*Manager).RestoreStableService
+//@ props C04
+//@ requires m != nil && c != nil
+//@ sets @stableUnpinned := !result0 && result1 == nil
+
+// removing the canary Service is only allowed after the routes that point to it have been withdrawn
+//@ func (*Manager).RemoveCanaryService
+//@ props C04 C10
+//@ requires m != nil && c != nil
+//@ requires routes_first: @routesWithdrawn
+
+//@ func (*Manager).FinalisingTrafficRouting
+//@ props C18 C04
+//@ requires m != nil && c != nil
+//@ sets @trCleanupDone := result0 && result1 == nil
+//@ ensures done_has_no_error: result0 ==> result1 == nil
+//@ ensures done_means_all_done: result0 && old(len(c.ObjectRef)) > 0 ==> #restoreStable == 1 && !#restoreStable.ret0 && #restoreStable.ret1 == nil && #restoreGateway == 1 && !#restoreGateway.ret0 && #restoreGateway.ret1 == nil && #removeCanarySvc == 1 && !#removeCanarySvc.ret0 && #removeCanarySvc.ret1 == nil
